@@ -7,7 +7,7 @@ CONSTANTS
   Starts = {1}
   Signs = {1}
   RotIdx = {1, 2, 3, 4, 5, 6, 7, 8, 9, 10, 11, 12}
-  DipIdx = {1, 2, 3, 4, 5, 6, 7, 8, 9, 10, 11, 12}
+  DipIdx = {1, 2, 4, 5, 8, 11}
   SizeIdx = {1, 3, 4, 5}
   Deviations = {}
 INVARIANT CountMatches
